@@ -69,7 +69,7 @@ pub fn comment_words(text: &str) -> Vec<String> {
 /// Vertically aligned lists (struct fields, struct-literal fields, enum discriminants) under the
 /// alignment thresholds: groups separated by blank lines, trailing and leading comments with
 /// ASCII and multi-byte text on first / middle / last elements of each group.
-fn gen_aligned(c: &mut Choices<'_>) -> Value {
+pub fn gen_aligned(c: &mut Choices<'_>) -> Value {
     const NAMES: &[&str] = &["a", "bb", "gamma_long", "d", "alpha", "x_coordinate", "größe", "n2"];
     const WORDS: &[&str] = &["", " note", " größe über alles ok", " ünïcode ✓ ✓", " a longer remark about this element", " 日本語のコメント"];
     let kind = c.below(3);
@@ -80,6 +80,8 @@ fn gen_aligned(c: &mut Choices<'_>) -> Value {
     let mut idx = 0usize;
     for g in 0..groups {
         if g > 0 {
+            // the separator line is empty or holds only blanks
+            body.push_str(*c.pick(&["", "", "    ", "\t", "  "]));
             body.push('\n');
         }
         let n = 1 + c.below(4);
